@@ -1115,7 +1115,7 @@ func convToNumber(v interface{}) *decimal.Big {
 		return n
 	case string:
 		r, ok := newDecimalBig().SetString(n)
-		if !ok {
+		if !ok || !isNumericText(n) {
 			return newDecimalBig().SetNaN(true)
 		}
 		return r
@@ -1132,6 +1132,46 @@ func convToNumber(v interface{}) *decimal.Big {
 			return newDecimalBig().SetNaN(true)
 		}
 	}
+}
+
+// isNumericText reports whether s is a number as it can be written out: an optional sign, digits
+// with at most one point and at least one digit, an optional exponent with at least one digit -
+// or one of the names of infinity and NaN. decimal's SetString alone also takes ".", "1e", "1.5e-"
+// (as 0, 1, 1.5) and "infinity5" (as infinity).
+func isNumericText(s string) bool {
+	if s != "" && (s[0] == '+' || s[0] == '-') {
+		s = s[1:]
+	}
+	switch strings.ToLower(s) {
+	case "inf", "infinity", "nan", "qnan", "snan":
+		return true
+	}
+	digits := func() int {
+		n := 0
+		for n < len(s) && s[n] >= '0' && s[n] <= '9' {
+			n++
+		}
+		s = s[n:]
+		return n
+	}
+	n := digits()
+	if s != "" && s[0] == '.' {
+		s = s[1:]
+		n += digits()
+	}
+	if n == 0 {
+		return false
+	}
+	if s != "" && (s[0] == 'e' || s[0] == 'E') {
+		s = s[1:]
+		if s != "" && (s[0] == '+' || s[0] == '-') {
+			s = s[1:]
+		}
+		if digits() == 0 {
+			return false
+		}
+	}
+	return s == ""
 }
 
 func (r *Runner) toBool(v interface{}) bool {
